@@ -408,6 +408,28 @@ def handle (op : String) (args : List String) (obs : String) : Option Verdict :=
     -- `unknown:` (the cache was restructured beyond what the syntactic check understands) is a correspondence question
     some { model := "ok", spec := if obs.startsWith "bad:" then
         some ("the nbt per-type cache is written without the exclusive lock, or a cached field table is written after it was published: " ++ obs) else none }
+  | "conn.drain" =>
+    -- model: n pushes by the receiving goroutine, Close, then pulls — `Model.Queue` driven as a script
+    some (match natArg args "n" with
+      | none => { model := "bad-arg" }
+      | some n =>
+        let kind := (kv args "kind").getD "linked"
+        let ops : List SOp := (List.range n).map (fun i => SOp.push i) ++ [SOp.close] ++ (List.replicate (n + 1) SOp.pull)
+        let res := if kind == "chan" then chanSys.script ops (Queue.cinit 64) else linkedSys.script ops Queue.init
+        let pulls := (res.splitOn ",").drop (n + 1)
+        let gotM := (pulls.filter fun r => r.startsWith "v").length
+        let orderM := if pulls.take n == (List.range n).map (fun i => s!"v{i}") then "ok" else "bad"
+        let endM := if pulls.getLast? == some "x" then "err" else "none"
+        let toks := obs.splitOn " "
+        let spec : Option String :=
+          match natArg toks "got", kv toks "order", kv toks "end" with
+          | some g, some o, some e =>
+            if g < n then some s!"closure reported after {g} of {n} received packets: the remaining queued packets were not handed out first"
+            else if o != "ok" then some "packets delivered out of order"
+            else if e != "err" then some "no error reported after the peer closed"
+            else none
+          | _, _, _ => some ("connection run failed: " ++ obs)
+        { model := s!"got={gotM} order={orderM} end={endM}", spec })
   | "cache.find" =>
     -- the model's lookup (exact spelling first, otherwise the first case-insensitive match; the table is not changed)
     some (match kv args "fields", kv args "name" with
